@@ -450,8 +450,9 @@ static inline double cmb_random_std_beta(const double a, const double b)
     cmb_assert_release(a > 0.0);
     cmb_assert_release(b > 0.0);
 
-    const double x = cmb_random_std_gamma(a);
-    const double y = cmb_random_std_gamma(b);
+    /* cmb_random_gamma handles shape parameters below one, cmb_random_std_gamma does not */
+    const double x = cmb_random_gamma(a, 1.0);
+    const double y = cmb_random_gamma(b, 1.0);
     const double r = x / (x + y);
 
     cmb_assert_debug((r >= 0.0) && (r <= 1.0));
